@@ -1,7 +1,539 @@
-//! C06 — not built yet.
-use vcore::Ctx;
+//! C06 — resolvers receive exactly the spec-coerced argument values.
+use async_graphql::*;
+use indexmap::IndexMap;
+use std::sync::{Arc, Mutex};
+use vcore::{Case, Ctx, Src};
+use vgql::ast::{self, Def, Doc, Field as QField, Name as QName, OpDef, OpKind, PTy, PVal, Pos, SelSet, Selection, Ty, Val, VarDef};
+use vgql::coerce::*;
+use vgql::gentyped::{gen_input_literal, literal_to_runtime};
+use vgql::print::print_plain;
+use vgql::sch::{Kind, Sch};
 
-pub fn run(_ctx: &mut Ctx) {
-    eprintln!("C06: check not built yet");
-    std::process::exit(2);
+// ------------------------------------------------------------------ canonical echo of typed values
+trait Canon {
+    fn canon(&self) -> String;
+}
+impl Canon for i32 {
+    fn canon(&self) -> String {
+        self.to_string()
+    }
+}
+impl Canon for f64 {
+    fn canon(&self) -> String {
+        format!("{:?}", self)
+    }
+}
+impl Canon for String {
+    fn canon(&self) -> String {
+        format!("{:?}", self)
+    }
+}
+impl Canon for bool {
+    fn canon(&self) -> String {
+        self.to_string()
+    }
+}
+impl Canon for ID {
+    fn canon(&self) -> String {
+        format!("{:?}", self.0)
+    }
+}
+impl<T: Canon> Canon for Option<T> {
+    fn canon(&self) -> String {
+        match self {
+            None => "null".into(),
+            Some(v) => v.canon(),
+        }
+    }
+}
+impl<T: Canon> Canon for MaybeUndefined<T> {
+    fn canon(&self) -> String {
+        match self {
+            MaybeUndefined::Undefined => "undefined".into(),
+            MaybeUndefined::Null => "null".into(),
+            MaybeUndefined::Value(v) => v.canon(),
+        }
+    }
+}
+impl<T: Canon> Canon for Vec<T> {
+    fn canon(&self) -> String {
+        format!("[{}]", self.iter().map(|x| x.canon()).collect::<Vec<_>>().join(","))
+    }
+}
+
+#[derive(Enum, Copy, Clone, Eq, PartialEq)]
+enum Color {
+    Red,
+    Green,
+    #[graphql(name = "DARK_BLUE")]
+    Blue,
+}
+impl Canon for Color {
+    fn canon(&self) -> String {
+        match self {
+            Color::Red => "RED",
+            Color::Green => "GREEN",
+            Color::Blue => "DARK_BLUE",
+        }
+        .into()
+    }
+}
+
+#[derive(InputObject)]
+struct Inner {
+    a: i32,
+    #[graphql(default = 5)]
+    b: i32,
+    c: Option<String>,
+    m: MaybeUndefined<i32>,
+    #[graphql(default_with = "vec![1, 2]")]
+    l: Vec<i32>,
+}
+impl Canon for Inner {
+    fn canon(&self) -> String {
+        format!("{{a:{},b:{},c:{},m:{},l:{}}}", self.a.canon(), self.b.canon(), self.c.canon(), self.m.canon(), self.l.canon())
+    }
+}
+#[derive(InputObject)]
+struct Outer {
+    inner: Inner,
+    #[graphql(default)]
+    list: Vec<i32>,
+    opt_inner: Option<Inner>,
+    color: Option<Color>,
+    #[graphql(default_with = "Color::Green")]
+    color_def: Color,
+    inners: Option<Vec<Inner>>,
+}
+impl Canon for Outer {
+    fn canon(&self) -> String {
+        format!(
+            "{{inner:{},list:{},optInner:{},color:{},colorDef:{},inners:{}}}",
+            self.inner.canon(),
+            self.list.canon(),
+            self.opt_inner.canon(),
+            self.color.canon(),
+            self.color_def.canon(),
+            self.inners.canon()
+        )
+    }
+}
+#[derive(OneofObject)]
+enum One {
+    I(i32),
+    S(String),
+    In(Inner),
+    L(Vec<i32>),
+}
+impl Canon for One {
+    fn canon(&self) -> String {
+        match self {
+            One::I(v) => format!("{{i:{}}}", v.canon()),
+            One::S(v) => format!("{{s:{}}}", v.canon()),
+            One::In(v) => format!("{{in:{}}}", v.canon()),
+            One::L(v) => format!("{{l:{}}}", v.canon()),
+        }
+    }
+}
+
+type Log = Arc<Mutex<Vec<String>>>;
+fn echo(ctx: &Context<'_>, s: String) -> String {
+    ctx.data_unchecked::<Log>().lock().unwrap().push(s.clone());
+    s
+}
+
+struct Query;
+#[Object]
+impl Query {
+    async fn int(&self, ctx: &Context<'_>, x: i32) -> String {
+        echo(ctx, x.canon())
+    }
+    async fn int_opt(&self, ctx: &Context<'_>, x: Option<i32>) -> String {
+        echo(ctx, x.canon())
+    }
+    async fn int_def(&self, ctx: &Context<'_>, #[graphql(default = 7)] x: i32) -> String {
+        echo(ctx, x.canon())
+    }
+    async fn int_opt_def(&self, ctx: &Context<'_>, #[graphql(default = 7)] x: Option<i32>) -> String {
+        echo(ctx, x.canon())
+    }
+    async fn int_mu(&self, ctx: &Context<'_>, x: MaybeUndefined<i32>) -> String {
+        echo(ctx, x.canon())
+    }
+    async fn float(&self, ctx: &Context<'_>, x: f64) -> String {
+        echo(ctx, x.canon())
+    }
+    async fn float_opt(&self, ctx: &Context<'_>, x: Option<f64>) -> String {
+        echo(ctx, x.canon())
+    }
+    async fn str(&self, ctx: &Context<'_>, x: String) -> String {
+        echo(ctx, x.canon())
+    }
+    async fn str_opt(&self, ctx: &Context<'_>, x: Option<String>) -> String {
+        echo(ctx, x.canon())
+    }
+    async fn str_def(&self, ctx: &Context<'_>, #[graphql(default = "dflt")] x: String) -> String {
+        echo(ctx, x.canon())
+    }
+    async fn boolean(&self, ctx: &Context<'_>, x: bool) -> String {
+        echo(ctx, x.canon())
+    }
+    async fn bool_opt(&self, ctx: &Context<'_>, x: Option<bool>) -> String {
+        echo(ctx, x.canon())
+    }
+    async fn id(&self, ctx: &Context<'_>, x: ID) -> String {
+        echo(ctx, x.canon())
+    }
+    async fn id_opt(&self, ctx: &Context<'_>, x: Option<ID>) -> String {
+        echo(ctx, x.canon())
+    }
+    async fn color(&self, ctx: &Context<'_>, x: Color) -> String {
+        echo(ctx, x.canon())
+    }
+    async fn color_opt(&self, ctx: &Context<'_>, x: Option<Color>) -> String {
+        echo(ctx, x.canon())
+    }
+    async fn color_def(&self, ctx: &Context<'_>, #[graphql(default_with = "Color::Blue")] x: Color) -> String {
+        echo(ctx, x.canon())
+    }
+    async fn list(&self, ctx: &Context<'_>, x: Vec<i32>) -> String {
+        echo(ctx, x.canon())
+    }
+    async fn list_opt(&self, ctx: &Context<'_>, x: Option<Vec<Option<i32>>>) -> String {
+        echo(ctx, x.canon())
+    }
+    async fn list_def(&self, ctx: &Context<'_>, #[graphql(default_with = "vec![1, 2]")] x: Vec<i32>) -> String {
+        echo(ctx, x.canon())
+    }
+    async fn matrix(&self, ctx: &Context<'_>, x: Vec<Vec<i32>>) -> String {
+        echo(ctx, x.canon())
+    }
+    async fn matrix_opt(&self, ctx: &Context<'_>, x: Option<Vec<Option<Vec<Option<i32>>>>>) -> String {
+        echo(ctx, x.canon())
+    }
+    async fn colors(&self, ctx: &Context<'_>, x: Option<Vec<Color>>) -> String {
+        echo(ctx, x.canon())
+    }
+    async fn inner(&self, ctx: &Context<'_>, x: Inner) -> String {
+        echo(ctx, x.canon())
+    }
+    async fn inner_opt(&self, ctx: &Context<'_>, x: Option<Inner>) -> String {
+        echo(ctx, x.canon())
+    }
+    async fn outer(&self, ctx: &Context<'_>, x: Outer) -> String {
+        echo(ctx, x.canon())
+    }
+    async fn outer_opt(&self, ctx: &Context<'_>, x: Option<Outer>) -> String {
+        echo(ctx, x.canon())
+    }
+    async fn list_inner(&self, ctx: &Context<'_>, x: Vec<Inner>) -> String {
+        echo(ctx, x.canon())
+    }
+    async fn one(&self, ctx: &Context<'_>, x: One) -> String {
+        echo(ctx, x.canon())
+    }
+    async fn one_opt(&self, ctx: &Context<'_>, x: Option<One>) -> String {
+        echo(ctx, x.canon())
+    }
+    async fn ones(&self, ctx: &Context<'_>, x: Option<Vec<One>>) -> String {
+        echo(ctx, x.canon())
+    }
+}
+
+/// positions whose Rust type is MaybeUndefined (absent and null are distinguishable there)
+fn is_mu(owner: &str, field: &str) -> bool {
+    matches!((owner, field), ("Query.intMu", "x") | ("Inner", "m"))
+}
+
+/// canonical echo that the resolver must produce for the reference-coerced value
+fn echo_cv(sch: &Sch, ty: &Ty, v: Option<&CV>, mu: bool) -> String {
+    let v = match v {
+        None => return if mu { "undefined".into() } else { "null".into() },
+        Some(CV::Null) => return "null".into(),
+        Some(v) => v,
+    };
+    match ty.nullable() {
+        Ty::List(inner) => match v {
+            CV::List(items) => format!("[{}]", items.iter().map(|x| echo_cv(sch, inner, Some(x), false)).collect::<Vec<_>>().join(",")),
+            other => format!("<not-a-list:{}>", other.show()),
+        },
+        Ty::Named(n) => match (n.as_str(), v) {
+            ("Int", CV::Int(i)) => i.to_string(),
+            ("Float", CV::Float(f)) => format!("{:?}", f),
+            ("String", CV::Str(s)) | ("ID", CV::Str(s)) => format!("{:?}", s),
+            ("Boolean", CV::Bool(b)) => b.to_string(),
+            (_, CV::Enum(e)) => e.clone(),
+            (_, CV::Obj(o)) => {
+                let td = sch.ty(n).unwrap();
+                if td.one_of {
+                    let (k, x) = o.iter().next().unwrap();
+                    let fd = td.input_fields.iter().find(|f| &f.name == k).unwrap();
+                    return format!("{{{}:{}}}", k, echo_cv(sch, &fd.ty, Some(x), false));
+                }
+                let parts: Vec<String> = td.input_fields.iter().map(|f| format!("{}:{}", f.name, echo_cv(sch, &f.ty, o.get(&f.name), is_mu(n, &f.name)))).collect();
+                format!("{{{}}}", parts.join(","))
+            }
+            (_, other) => format!("<unexpected:{}>", other.show()),
+        },
+        Ty::NonNull(_) => unreachable!(),
+    }
+}
+
+// ------------------------------------------------------------------ supplying values
+struct Supply<'a> {
+    sch: &'a Sch,
+    vardefs: Vec<VarDef>,
+    provided: IndexMap<String, CV>,
+    classes: Vec<&'static str>,
+    allow_omitted_var_arg_default: bool,
+}
+
+fn random_runtime(s: &mut dyn Src, depth: usize) -> CV {
+    match s.choose(if depth == 0 { 6 } else { 8 }) {
+        0 => CV::Null,
+        1 => CV::Int(vcore::gens::gen_i64(s)),
+        2 => CV::Float(s.range(-100, 100) as f64 / 4.0),
+        3 => CV::Str(vcore::gens::gen_string(s, 3)),
+        4 => CV::Bool(s.bool()),
+        5 => CV::Str(["RED", "GREEN", "DARK_BLUE", "Red", "PURPLE"][s.choose(5)].to_string()),
+        6 => CV::List((0..s.choose(3)).map(|_| random_runtime(s, depth - 1)).collect()),
+        _ => CV::Obj((0..s.choose(3)).map(|_| (["a", "b", "c", "m", "l", "i", "s", "zz"][s.choose(8)].to_string(), random_runtime(s, depth - 1))).collect()),
+    }
+}
+fn random_literal(s: &mut dyn Src, depth: usize) -> Val {
+    match s.choose(if depth == 0 { 7 } else { 9 }) {
+        0 => Val::Null,
+        1 => Val::Int(vcore::gens::gen_i64(s).to_string()),
+        2 => Val::Float(format!("{:?}", s.range(-100, 100) as f64 / 4.0)),
+        3 => Val::Str(vcore::gens::gen_string(s, 3)),
+        4 => Val::Bool(s.bool()),
+        5 => Val::Enum(["RED", "GREEN", "DARK_BLUE", "Red", "PURPLE"][s.choose(5)].to_string()),
+        6 => Val::Int(s.range(-3, 3).to_string()),
+        7 => Val::List((0..s.choose(3)).map(|_| PVal::new(random_literal(s, depth - 1))).collect()),
+        _ => {
+            let mut fields: Vec<(QName, PVal)> = vec![];
+            for _ in 0..s.choose(3) {
+                // unknown field names in LITERALS are a validation matter (C09); runtime values keep them
+                let k = ["a", "b", "c", "m", "l", "i", "s"][s.choose(7)];
+                if fields.iter().all(|(n, _)| n.s != k) {
+                    fields.push((QName::new(k), PVal::new(random_literal(s, depth - 1))));
+                }
+            }
+            Val::Obj(fields)
+        }
+    }
+}
+
+impl<'a> Supply<'a> {
+    /// a variable usable at a position of type `ty` (declared with that type or its non-null form)
+    fn variable(&mut self, s: &mut dyn Src, ty: &Ty, position_tolerates_absent: bool, position_has_default: bool) -> Val {
+        let name = format!("v{}", self.vardefs.len());
+        let decl = if !ty.is_nn() && s.chance(1, 4) { Ty::nn(ty.clone()) } else { ty.clone() };
+        let default = if s.chance(1, 3) {
+            // default literals are always of the variable's type: an ill-typed default is a validation matter (C09)
+            let lit = gen_input_literal(self.sch, &decl, s, 0);
+            let mut pv = PVal::new(lit);
+            ast::strip_val(&mut pv);
+            self.classes.push("variable-default");
+            Some(pv)
+        } else {
+            None
+        };
+        // how is it supplied?
+        match s.choose(5) {
+            0 | 1 => {
+                let lit = gen_input_literal(self.sch, &decl, s, 0);
+                self.provided.insert(name.clone(), literal_to_runtime(&lit));
+            }
+            2 => {
+                self.provided.insert(name.clone(), random_runtime(s, 2));
+                self.classes.push("variable-arbitrary-runtime-value");
+            }
+            3 => {
+                self.provided.insert(name.clone(), CV::Null);
+                self.classes.push("variable-explicit-null");
+            }
+            _ => {
+                // omitted; only legal combinations for a VALID document/request are kept valid by the oracle itself
+                // (required variable without default -> request error is the expected outcome)
+                let mut omit = true;
+                if default.is_none() && position_has_default && !self.allow_omitted_var_arg_default {
+                    omit = false;
+                }
+                if omit {
+                    self.classes.push("variable-omitted");
+                    if default.is_none() && position_has_default {
+                        self.classes.push("omitted-variable-meets-argument-default");
+                    }
+                } else {
+                    let lit = gen_input_literal(self.sch, &decl, s, 0);
+                    self.provided.insert(name.clone(), literal_to_runtime(&lit));
+                }
+                let _ = position_tolerates_absent;
+            }
+        }
+        self.vardefs.push(VarDef { pos: Pos::default(), name: QName::new(name.clone()), ty: PTy { pos: Pos::default(), ty: decl }, default, directives: vec![] });
+        Val::Var(name)
+    }
+
+    /// a value for a position of type `ty`: literal (right or wrong), variable, single value for a list, or a
+    /// structure built from nested supplies
+    fn value(&mut self, s: &mut dyn Src, ty: &Ty, depth: usize, has_default: bool) -> Val {
+        self.value2(s, ty, depth, has_default, true)
+    }
+    /// `allow_var`: false below a single-value-for-list position (a variable of item type is not allowed in a list
+    /// position; variable usage is C09's subject)
+    fn value2(&mut self, s: &mut dyn Src, ty: &Ty, depth: usize, has_default: bool, allow_var: bool) -> Val {
+        let k = if allow_var { s.weighted(&[6, 3, 1, 2, 3]) } else { s.weighted(&[6, 0, 1, 2, 0]) };
+        match k {
+            1 => {
+                self.classes.push("variable");
+                self.variable(s, ty, !ty.is_nn() || has_default, has_default)
+            }
+            2 => {
+                self.classes.push("arbitrary-literal");
+                random_literal(s, 2)
+            }
+            3 if ty.is_list() => {
+                // single value where a list is expected
+                self.classes.push("single-value-for-list");
+                let inner = match ty.nullable() {
+                    Ty::List(i) => (**i).clone(),
+                    _ => unreachable!(),
+                };
+                self.value2(s, &inner, depth + 1, false, false)
+            }
+            4 if depth < 3 => match ty.nullable() {
+                Ty::List(inner) => {
+                    let n = s.choose(3);
+                    Val::List((0..n).map(|_| PVal::new(self.value(s, inner, depth + 1, false))).collect())
+                }
+                Ty::Named(n) if self.sch.kind(n) == Some(Kind::Input) => {
+                    let td = self.sch.ty(n).unwrap().clone();
+                    self.classes.push(if td.one_of { "oneof-structured" } else { "input-object-structured" });
+                    let mut fields = vec![];
+                    if td.one_of {
+                        let cnt = *vcore::gens::pick(s, &[1usize, 1, 1, 0, 2]);
+                        let start = s.choose(td.input_fields.len());
+                        for i in 0..cnt {
+                            let f = &td.input_fields[(start + i) % td.input_fields.len()];
+                            fields.push((QName::new(f.name.clone()), PVal::new(self.value(s, &f.ty, depth + 1, false))));
+                        }
+                    } else {
+                        for f in &td.input_fields {
+                            let required = f.ty.is_nn() && f.default.is_none();
+                            if (required && !s.chance(1, 10)) || (!required && s.bool()) {
+                                fields.push((QName::new(f.name.clone()), PVal::new(self.value(s, &f.ty, depth + 1, f.default.is_some()))));
+                            } else if f.default.is_some() {
+                                self.classes.push("input-field-default-applies");
+                            }
+                        }
+                    }
+                    Val::Obj(fields)
+                }
+                _ => gen_input_literal(self.sch, ty, s, 0),
+            },
+            _ => gen_input_literal(self.sch, ty, s, 0),
+        }
+    }
+}
+
+fn static_case(schema: &Schema<Query, EmptyMutation, EmptySubscription>, sch: &Sch, s: &mut dyn Src, f1_open_excluded: bool, probe_f1: bool) -> Case {
+    let q = sch.ty("Query").unwrap();
+    let fd = q.fields[s.choose(q.fields.len())].clone();
+    let ad = fd.args[0].clone();
+    let mut sup = Supply { sch, vardefs: vec![], provided: IndexMap::new(), classes: vec![], allow_omitted_var_arg_default: !f1_open_excluded || probe_f1 };
+    let mut field = QField::new(&fd.name);
+    field.alias = Some(QName::new("k"));
+    if !s.chance(1, 6) {
+        let v = sup.value(s, &ad.ty, 0, ad.default.is_some());
+        field.args.push((QName::new("x"), PVal::new(v)));
+    } else {
+        sup.classes.push("argument-omitted");
+        if ad.default.is_some() {
+            sup.classes.push("argument-default-applies");
+        }
+    }
+    let op = OpDef { pos: Pos::default(), explicit: true, kind: OpKind::Query, name: None, vars: sup.vardefs.clone(), directives: vec![], sel: SelSet::new(vec![Selection::Field(field.clone())]) };
+    let mut doc = Doc { defs: vec![Def::Op(op.clone())] };
+    let text = print_plain(&mut doc);
+    let vars_j = crate::execcmp::vars_json(&sup.provided);
+    let rendered = format!("query: {}\nvariables: {}", text, vars_j);
+    // reference
+    // a default value literal that is not of the variable's type makes the document invalid (Values of Correct
+    // Type), whether or not the default is used
+    let defaults_ok: Result<(), CoErr> = op.vars.iter().try_for_each(|v| match &v.default {
+        Some(d) => coerce_literal(sch, &v.ty.ty, &d.v, None).map(|_| ()),
+        None => Ok(()),
+    });
+    let expected: Result<String, CoErr> = defaults_ok.and_then(|_| coerce_variables(sch, &op, &sup.provided)).and_then(|vars| coerce_arguments(sch, &fd, &field.args, &vars)).map(|args| echo_cv(sch, &ad.ty, args.get("x"), is_mu(&format!("Query.{}", fd.name), "x")));
+    if let Err(e) = &expected {
+        if e.dont_care {
+            return Case::discard("implementation-defined coercion (integral float for Int/ID)");
+        }
+    }
+    let log: Log = Arc::new(Mutex::new(vec![]));
+    let resp = vcore::det::block_on(schema.execute(crate::execcmp::request(&text, &sup.provided, None).data(log.clone())));
+    let invoked = log.lock().unwrap().clone();
+    let data = crate::execcmp::resp_data(&resp);
+    let mut c = match &expected {
+        Ok(want) => {
+            if invoked.len() == 1 && &invoked[0] == want && data["k"].as_str() == Some(want.as_str()) && resp.errors.is_empty() {
+                Case::pass(rendered)
+            } else {
+                Case::fail(rendered, format!("expected the resolver to receive {} once; it received {:?}; errors: {:?}", want, invoked, resp.errors.iter().map(|e| e.message.clone()).collect::<Vec<_>>()))
+            }
+        }
+        Err(e) => {
+            if !invoked.is_empty() {
+                Case::fail(rendered, format!("coercion must fail ({}), but the resolver was invoked with {:?}", e.msg, invoked))
+            } else if resp.errors.is_empty() {
+                Case::fail(rendered, format!("coercion must fail ({}), but the response carries no error: {}", e.msg, data))
+            } else {
+                Case::pass(rendered).class("rejected")
+            }
+        }
+    };
+    let nontrivial = sup.classes.iter().any(|c| matches!(*c, "variable-omitted" | "variable-explicit-null" | "single-value-for-list" | "oneof-structured" | "input-object-structured" | "argument-default-applies" | "input-field-default-applies"));
+    c.nontrivial = c.nontrivial || nontrivial;
+    sup.classes.sort();
+    sup.classes.dedup();
+    for cl in sup.classes {
+        c = c.class(cl);
+    }
+    c.class(if expected.is_ok() { "coerces" } else { "must-fail" })
+}
+
+pub fn run(ctx: &mut Ctx) {
+    ctx.rule = "one echo field per argument type of a derive-built schema (scalars, enum, nested lists, input objects with field defaults / Option / MaybeUndefined fields, nested input objects, oneOf; \
+                required, nullable and defaulted forms); the argument is supplied as a right or arbitrary literal, a variable (provided with a right or arbitrary value, explicit null, omitted; with or without \
+                default), nested variables inside lists/objects, a single value for a list, or omitted; the reference coercion (spec 6.1.2 + 6.4.1 + oneOf) decides: either the resolver ran once and echoed exactly \
+                the coerced value in a canonical form that distinguishes undefined/null/value, or the request carries an error and the resolver did not run. Non-trivial = an omitted/null supply, a default that applies, \
+                a single value for a list, or a structured input object / oneOf; distinct by (query, variables)".into();
+    ctx.assume("variables are always declared with the type of the position they are used in (or its non-null form): variable-usage validity is C09's subject");
+    ctx.assume("integral floats supplied for Int/ID variables are implementation-defined (discarded)");
+    ctx.assume("dynamic schemas hand resolvers an untyped accessor; their coercion is observed by C02/C09, not here");
+    let schema = Schema::new(Query, EmptyMutation, EmptySubscription);
+    let mut sch = vgql::sch::from_sdl_text(&schema.sdl()).expect("SDL of the input schema");
+    for b in vgql::sch::BUILTIN_SCALARS {
+        sch.types.shift_remove(b);
+    }
+    let n = ctx.tier.pick(400_000, 8_000_000);
+    let f1 = ctx.open("C06-F1");
+    if f1 {
+        ctx.excluded("C06-F1");
+    }
+    ctx.stream("static", n, 200, |s| static_case(&schema, &sch, s, f1, false));
+    if f1 {
+        ctx.stream("probe-omitted-variable-argument-default", n / 10, 200, |s| {
+            let c = static_case(&schema, &sch, s, f1, true);
+            match &c.verdict {
+                vcore::Verdict::Fail(w) if c.classes.iter().any(|x| x == "omitted-variable-meets-argument-default") && w.contains("it received []") => Case::known(c.text.clone(), vec!["C06-F1".into()]),
+                _ => c,
+            }
+        });
+    }
+    ctx.floor("oneof-structured", 100);
+    ctx.floor("single-value-for-list", 100);
+    ctx.floor("input-field-default-applies", 100);
 }
